@@ -21,6 +21,7 @@ ID_COLS = {"environment_id": "eid", "learner_id": "lid", "evaluator_id": "vid"}
 P15_SIG = "fin:group-with-duplicate-level-masking-missing-level-kept"
 F2_SIG = "grouping-by-sorted-adjacency-misgroups-partially-ordered-values"
 F3_SIG = "fin:length-drop-after-pairing-leaves-incomplete-group"
+F4_SIG = "best:grouping-by-sorted-adjacency-splits-cells-of-partially-ordered-values"
 
 
 # ----------------------------------------------------------------------------- values
@@ -871,6 +872,10 @@ class C18(Property):
                                   {"op": "raw_contrast", "l": "family", "l1": "g", "l2": "f", "x": "environment_id", "p": "environment_id", "span": None, "fresh": True},
                                   {"op": "raw_contrast", "l": "learner_id", "l1": 0, "l2": 1, "x": "data", "p": "data", "span": None, "fresh": True},
                                   {"op": "raw_contrast", "l": "learner_id", "l1": 1, "l2": 1, "x": "index", "p": "environment_id", "span": None, "fresh": True}]))
+        # C18-F4: where_best with frozenset pairing values
+        cs.append(dict(base, lrn_cols=[], lrns=[[0], [1]], vals=[[0]], envs=[[0, {"fs": [1]}], [1, {"fs": [2]}], [2, {"fs": [1]}]],
+                       evals=[[0, 0, 0, [1]], [0, 1, 0, [0]], [1, 0, 0, [1]], [1, 1, 0, [1]], [2, 0, 0, [0]], [2, 1, 0, [3]]],
+                       steps=[{"op": "where_best", "l": "evaluator_id", "p": "data", "n": None}]))
         # C18-F3: a short evaluation inside an otherwise complete group; a short duplicate inside an oversized group
         cs.append(dict(base, vals=[[0]], evals=[[0, 0, 0, [1, 1]], [0, 1, 0, [1]], [1, 0, 0, [1, 1]], [1, 1, 0, [1, 1]]],
                        steps=[{"op": "where_fin", "n": 2, "l": "learner_id", "p": "environment_id"}]))
@@ -1076,7 +1081,12 @@ class C18(Property):
             ties = ties or sum(1 for v in score.values() if v == best) > 1
             kept_levels = [f for f, evs in levels.items() if any(t in got for t, _ in evs)]
             partial = [f for f, evs in levels.items() if any(t in got for t, _ in evs) and not all(t in got for t, _ in evs)]
-            if len(kept_levels) != 1 or partial:
+            if (len(kept_levels) != 1 or partial or score[kept_levels[0]] != best) and \
+                    (d.col_has_partial_order(p) or d.col_has_partial_order(l) or d.col_has_partial_order(fl)):
+                tags.append("f4")
+                fails.append(F("B", "%s: the cell (p,l)=%s is split because its key values are only partially ordered (frozensets) and filter_best groups "
+                               "by sorted()+adjacency; levels left %s (partially %s), scores %s" % (call, ck, kept_levels, partial, {str(k): str(v) for k, v in score.items()}), F4_SIG))
+            elif len(kept_levels) != 1 or partial:
                 fails.append(F("B", "%s leaves the levels %s (partially: %s) in the cell (p,l)=%s; exactly one %s level must stay, entirely (scores %s)"
                                % (call, kept_levels, partial, ck, fl, {str(k): str(v) for k, v in score.items()}), "best:not-exactly-one-level-per-cell"))
             elif score[kept_levels[0]] != best:
@@ -1148,7 +1158,7 @@ class C18(Property):
 
     @staticmethod
     def same_pairs(got, exp):
-        if set(map(repr, got)) != set(map(repr, exp)):
+        if set(got) != set(exp):            # by ==/hash, as the code's own dict (0 == False == 0.0)
             return False
         for k in exp:
             g = sorted(([float(a), float(b)] for a, b in got[k]))
@@ -1185,7 +1195,7 @@ class C18(Property):
             return False
         got = self.contrast_got(rec)
         if not self.same_pairs(got, exp):
-            kind = "keys" if set(map(repr, got)) != set(map(repr, exp)) else "values"
+            kind = "keys" if set(got) != set(exp) else "values"
             fails.append(F("B", "%s reports %s; pairing the directly computed averages by %s gives %s"
                            % (call, got, st["p"], {str(k): [(str(a), str(b)) for a, b in v] for k, v in exp.items()}), "contrast:%s-differ" % kind))
         return sum(len(v) for v in exp.values()) >= 2
